@@ -87,16 +87,21 @@ func (p *Program) initCancelReader(cancel bool) error {
 		return fmt.Errorf("error creating cancelreader: %w", err)
 	}
 
-	p.readLoopDone = make(chan struct{})
-	go p.readLoop()
+	// The loop gets the reader and the channel it belongs to: were it to
+	// look them up in the Program when it starts running, a second
+	// RestoreTerminal could have replaced them by then, and two loops would
+	// close the same channel.
+	done := make(chan struct{})
+	p.readLoopDone = done
+	go p.readLoop(p.cancelReader, done)
 
 	return nil
 }
 
-func (p *Program) readLoop() {
-	defer close(p.readLoopDone)
+func (p *Program) readLoop(input io.Reader, done chan<- struct{}) {
+	defer close(done)
 
-	err := readInputs(p.ctx, p.msgs, p.cancelReader)
+	err := readInputs(p.ctx, p.msgs, input)
 	if !errors.Is(err, io.EOF) && !errors.Is(err, cancelreader.ErrCanceled) {
 		select {
 		case <-p.ctx.Done():
